@@ -551,6 +551,22 @@ func checkParse(c pcase) (o pbt.Outcome, err error) {
 				return o, fmt.Errorf("partition %d has neither a name nor a model", p)
 			}
 		}
+		// the map is the one the text declares, whenever the text is of the plain form that the
+		// small independent reader below understands (otherwise: not judged, counted)
+		if want, ok := partitionModel(c.Data, c.PartLen); ok {
+			for i := 0; i < c.PartLen; i++ {
+				got := ""
+				if p := ps.Partition(i); p >= 0 {
+					got = ps.PartitionName(p)
+				}
+				if got != want[i] {
+					return o, fmt.Errorf("partition: site %d (0-based) is in partition %q, the text puts it in %q", i, got, want[i])
+				}
+			}
+			o.Class("%s: ok, map compared with the text", c.Target)
+		} else {
+			o.Ambiguous++
+		}
 		o.Class("%s: ok", c.Target)
 		return o, nil
 	}
@@ -635,6 +651,58 @@ func checkParse(c pcase) (o pbt.Outcome, err error) {
 		o.Class("%s: ok, several alignments", c.Target)
 	}
 	return o, nil
+}
+
+var rePartLine = regexp.MustCompile(`^([A-Za-z][A-Za-z0-9_]*),([A-Za-z][A-Za-z0-9_]*)=([0-9,/-]+)$`)
+var rePartRange = regexp.MustCompile(`^([0-9]{1,9})(?:-([0-9]{1,9}))?(?:/([0-9]{1,9}))?$`)
+
+// partitionModel reads a partition text of the plain form "MODEL,name=a-b/k,c,d-e" (one
+// definition per line, 1-based inclusive ranges with an optional stride, names distinct from
+// line to line) and returns the name of the partition of every site ("" = none). ok is false for
+// anything else: other characters, a range outside 1..length or backwards, a site given twice,
+// a name defined on two lines - what the parser should do there is the business of the error
+// clauses, not of this comparison.
+func partitionModel(data []byte, length int) (sites []string, ok bool) {
+	if length < 1 || length > 100000 {
+		return nil, false
+	}
+	sites = make([]string, length)
+	names := map[string]bool{}
+	text := strings.TrimRight(string(data), "\n")
+	if text == "" {
+		return nil, false
+	}
+	for _, line := range strings.Split(text, "\n") {
+		m := rePartLine.FindStringSubmatch(line)
+		if m == nil || names[m[2]] {
+			return nil, false
+		}
+		names[m[2]] = true
+		for _, r := range strings.Split(m[3], ",") {
+			q := rePartRange.FindStringSubmatch(r)
+			if q == nil {
+				return nil, false
+			}
+			a, _ := strconv.Atoi(q[1])
+			b, k := a, 1
+			if q[2] != "" {
+				b, _ = strconv.Atoi(q[2])
+			}
+			if q[3] != "" {
+				k, _ = strconv.Atoi(q[3])
+			}
+			if a < 1 || b > length || a > b || k < 1 {
+				return nil, false
+			}
+			for i := a; i <= b; i += k {
+				if sites[i-1] != "" {
+					return nil, false
+				}
+				sites[i-1] = m[2]
+			}
+		}
+	}
+	return sites, true
 }
 
 // testOf maps a target to the test function that replays its cases
